@@ -118,7 +118,7 @@ def maps_term(maps, qnums):
     return '(Some ' + lst([lst([tup(zraw(q), zraw(d[q])) for q in qnums]) for d in maps]) + ')'
 
 
-EXTRA = '''From Model Require Import PeriodicTable IsoBits IsoBitsExt IsoBitsPyx.
+EXTRA = '''From Model Require Import PeriodicTable IsoBits IsoBitsExt IsoBitsPyx IsoBitsGuard.
 From Gen Require Import Elements.
 Import ListNotations.
 Open Scope Z_scope.
@@ -1263,7 +1263,7 @@ Fixpoint ins_kv (x : Z * Z) (l : list (Z * Z)) : list (Z * Z) :=
 Definition norm_map (m : list (Z * Z)) : list (Z * Z) := fold_right ins_kv [] m.
 Definition pub_run (cython : bool) (comps : list (list rqent)) (rm : list ratom) (tcomps : list (list Z)) (flt : bool)
            (scope : option (list Z)) : list (list (Z * Z)) :=
-  map norm_map (public_get_mapping (fun _ => true) cython comps rm tcomps flt scope FUEL).
+  map norm_map (public_get_mapping2 (fun _ => true) cython comps rm tcomps flt scope FUEL).
 Definition pub_ok (comps : list (list rqent)) (rm : list ratom) (tcomps : list (list Z)) (flt : bool) (scope : option (list Z))
            (ofast oslow : list (list (Z * Z))) : bool :=
   list_eqb (list_eqb pair_zz_eqb) (pub_run true comps rm tcomps flt scope) ofast &&
@@ -1321,6 +1321,8 @@ def corr_public(ck, rng):
             todo.append((qt, q, mt, m, rng.random() < .5, sc))
     if ck.tier == 'quick':
         todo = [t for i, t in enumerate(todo) if t[2] not in MULTI_MOLS or i % 2 == 0]
+    for qt, mt in RING_GUARD_PAIRS:
+        todo.append((qt, smarts(qt), mt, smiles(mt), False, None))
     for qt, q, mt, m, flt, sc in todo:
         fast, slow, term = pub_case(q, m, flt, sc)
         if isinstance(fast, str) or as_set(fast) != as_set(slow):
@@ -1347,6 +1349,12 @@ def corr_public(ck, rng):
 # ---------------------------------------------------------------------------------------------------------
 # search: the property on the public API
 
+RING66 = 'C1' + 'C' * 64 + 'C1'
+RING6_70 = 'C1CCCC2C1' + 'C' * 68 + '2'
+# (query, molecule): ring sizes above 65 on either side and ordinary controls; all of them also go through the public correspondence
+RING_GUARD_PAIRS = [('[C;r66]', 'CCC'), ('[C;!R]', RING66), ('[C;r70]', RING6_70), ('[C;r6]', RING6_70), ('[C;r6,r70]', 'C1CCCCC1'),
+                    ('[C;r65]', 'CCC'), ('[C;!R]', 'C1CCCCC1C'), ('[M].[C;r66]', '[Na+].CC'), ('C', RING66), ('[C;r6]', 'C1CCCCC1')]
+
 KNOWN_PROBES = [
     ('anymetal-rn', '[M]', '[Rn]', 'AnyMetal mask accepts radon (and Og through the Lv bit); AnyMetal.__eq__ rejects noble gases'),
     ('hydrogens-none', '[N;h0]', 'c1ccncc1', 'implicit_hydrogens None (aromatic heteroatom as parsed, valence error) is encoded as 0 hydrogens'),
@@ -1355,9 +1363,10 @@ KNOWN_PROBES = [
     ('query-isotope-offset-raises', '[30C]', 'C', 'query isotope >= 10 above (or > 54 below) mdl_isotope: the encoder raises'),
     ('stack-overflow:stack_index', 'C123C45C16C24C356', 'C123C45C16C24C356', 'stack arrays overflow on dense graphs (K5)'),
     ('stack-overflow:stack_index', 'FS(F)(F)(F)(F)F', 'FS(F)(F)(F)(F)F', 'stack arrays overflow when a star-shaped query re-scans one centre (SF6)'),
+    # fixed by d9d8bf3 (second guard statement): must agree now, their return is a VIOLATION
     ('ring-size-above-65', '[C;r66]', 'CCC', 'ring sizes above 65 are dropped by both encoders and "only big rings" is encoded as ring-free: a query for a 66-ring matches chain atoms'),
-    ('ring-size-above-65', '[C;!R]', 'C1' + 'C' * 64 + 'C1', 'ring sizes above 65: the atoms of a 66-membered ring are encoded as ring-free and match !R'),
-    ('ring-size-above-65', '[C;r70]', 'C1CCCC2C1' + 'C' * 68 + '2', 'ring sizes above 65: an atom in a 6- and a 70-ring loses the 70 and no longer matches r70'),
+    ('ring-size-above-65', '[C;!R]', RING66, 'ring sizes above 65: the atoms of a 66-membered ring are encoded as ring-free and match !R'),
+    ('ring-size-above-65', '[C;r70]', RING6_70, 'ring sizes above 65: an atom in a 6- and a 70-ring loses the 70 and no longer matches r70'),
     ('stack-overflow:stack_index', '[A]([A])([A])([A])([A])([A])[A]', 'F%11.F%12.F%13.F%14.F%15.F%16.S%11%12%13%14%15%16', 'stack arrays overflow (star query on SF6, sulfur last)'),
 ]
 
@@ -1372,6 +1381,29 @@ def search(ck, rng, mod):
         calls[0] += 1
         return real_gm(*a)
     guard_cases, guard_meta = [], []
+    _qa = smarts('[A]')
+    GUARD_Q_ANY = lst([rq_term(c, _qa._compiled_query[1]) for c in _qa._compiled_query[0]])
+    # the second guard statement (d9d8bf3): ring sizes above 65 in the molecule or in the query send the call to the reference path
+    for qt, mt in RING_GUARD_PAIRS:
+        q, m = smarts(qt), smiles(mt)
+        calls[0] = 0
+        mod.get_mapping = counting
+        try:
+            list(itertools.islice(q.get_mapping(m), 3))
+        finally:
+            mod.get_mapping = real_gm
+        comps, clo = q._compiled_query
+        guard_cases.append(f'Bool.eqb (uses_mask_path2 true {lst([rq_term(c, clo) for c in comps])} {rmol_term(m)}) {b(calls[0] > 0)}')
+        guard_meta.append((qt, mt[:40]))
+        expect = not (any(r > 65 for a in m._atoms.values() for r in a.ring_sizes) or
+                      any(r > 65 for a in q._atoms.values() for r in (getattr(a, 'ring_sizes', None) or ())))
+        ck.case(('ring-guard', qt, mt), nontrivial=True)
+        ck.count('ring guard: ' + ('mask path' if expect else 'reference path (a ring size above 65)'))
+        if (calls[0] > 0) != expect:
+            ck.counterexample('ring-size-above-65', 'the bit-mask matcher is entered with a ring size above 65 (or a call without one does not enter it)',
+                              {'query': qt, 'molecule': mt}, {'mask path entered': calls[0] > 0}, {'expected': expect}, 'call counter on the transpiled get_mapping',
+                              replay_py=REPLAY_PRE + f'q = smarts({qt!r}); m = smiles({mt!r}); print(list(q.get_mapping(m, automorphism_filter=False))); '
+                                                     f'print(list(q.get_mapping(m, _cython=False, automorphism_filter=False)))')
     # (1) findings, known and fixed: fixed probes (an entry with status fixed suppresses nothing: its return is a VIOLATION)
     for key, qt, mt, what in KNOWN_PROBES:
         q, m = smarts(qt), smiles(mt)
@@ -1412,9 +1444,10 @@ def search(ck, rng, mod):
                 list(itertools.islice(smarts('[A]').get_mapping(m), 3))
             finally:
                 mod.get_mapping = real_gm
-            guard_cases.append(f'Bool.eqb (uses_mask_path true {rmol_term(m)}) {b(calls[0] > 0)}')
+            guard_cases.append(f'Bool.eqb (uses_mask_path2 true {GUARD_Q_ANY} {rmol_term(m)}) {b(calls[0] > 0)}')
             guard_meta.append(s)
-            if (calls[0] > 0) == h_none:
+            big = any(r > 65 for a in m._atoms.values() for r in a.ring_sizes)
+            if (calls[0] > 0) != (not h_none and not big):
                 ck.counterexample('hydrogens-none', 'a molecule with an unknown hydrogen count reaches the bit-mask matcher (or a complete one does not)',
                                   {'molecule': s}, {'mask path entered': calls[0] > 0}, {'expected': not h_none}, 'call counter on the transpiled get_mapping')
         qs = rng.sample(lib, 8 if ck.tier == 'quick' else 25) + [('fragment', fragment_query(m, rng)) for _ in range(3)]
@@ -1444,7 +1477,7 @@ def search(ck, rng, mod):
             if isinstance(fast, str) or as_set(fast) != as_set(slow):
                 report_pair(ck, qt, t, q, m, 'different sets of mappings (public API, dense polycycle)', kw)
     okg, fg, logg = coqcases.run_cases('c09_guard', 'PyBase', guard_cases, extra=EXTRA, shard=30)
-    ck.oblige('correspondence: the guard of QueryIsomorphism.get_mapping (mask path entered iff no hydrogen count is None) == uses_mask_path',
+    ck.oblige('correspondence: the guard of QueryIsomorphism.get_mapping (mask path entered iff no hydrogen count is None and no ring size above 65 in molecule / query) == uses_mask_path2',
               okg and not fg, 'correspondence', logg or str([guard_meta[i] for i in fg[:5]]))
     if not okg or fg:
         ck.unchecked('correspondence uses_mask_path vs the guard of get_mapping', logg[-1000:], [guard_meta[i] for i in fg[:10]])
